@@ -39,11 +39,14 @@ class Hang(Exception):
 
 
 class Sched:
+    """Cooperative scheduler: exactly one scheduled thread runs at a time.  A thread arriving at a shared
+    access parks in gate(); the controller grants it one turn (turn(tid)) and waits until it is parked again
+    (or has finished).  One semaphore per thread for the grant, one for the way back."""
+
     def __init__(self):
-        self.cv = threading.Condition()
-        self.parked = {}       # tid -> can() or None
-        self.granted = None
-        self.running = None
+        self.parked = {}       # tid -> (can() or None, kind)
+        self.go = {}           # tid -> Semaphore
+        self.back = threading.Semaphore(0)
         self.done = set()
         self.trace = []
         self.abort = False
@@ -61,22 +64,12 @@ class Sched:
         tid = self.tid()
         if tid is None:
             return None
-        with self.cv:
-            if self.abort:
-                raise Abort()
-            self.parked[tid] = (can, kind)
-            if self.running == tid:
-                self.running = None
-            self.cv.notify_all()
-            t0 = time.time()
-            while self.granted != tid:
-                if self.abort:
-                    raise Abort()
-                self.cv.wait(0.5)
-                if time.time() - t0 > 60:
-                    raise Abort()
-            self.granted = None
-            del self.parked[tid]
+        if self.abort:
+            raise Abort()
+        self.parked[tid] = (can, kind)
+        self.back.release()
+        if not self.go[tid].acquire(timeout=120) or self.abort:
+            raise Abort()
         return tid
 
     def rec(self, *label):
@@ -85,43 +78,31 @@ class Sched:
             self.trace.append([tid] + [int(x) for x in label])
 
     def finish(self, tid):
-        with self.cv:
-            self.done.add(tid)
-            if self.running == tid:
-                self.running = None
-            self.cv.notify_all()
+        self.done.add(tid)
+        if not self.abort:
+            self.back.release()
 
     # ---- controller side
     def wait_parked(self, tid):
-        """Wait until thread tid is parked at a gate or has finished."""
-        with self.cv:
-            t0 = time.time()
-            while not (tid in self.parked or tid in self.done) or self.running is not None:
-                self.cv.wait(0.2)
-                if time.time() - t0 > WAIT:
-                    raise Hang("thread %s did not reach its next shared access (running=%s)" % (tid, self.running))
+        """Wait until the thread that was started / granted a turn is parked at a gate or has finished."""
+        if not self.back.acquire(timeout=WAIT):
+            raise Hang("thread %s did not reach its next shared access" % tid)
 
     def turn(self, tid):
-        with self.cv:
-            if tid in self.done or tid not in self.parked:
-                return "fin"
-            can = self.parked[tid][0]
-            if can is not None and not can():
-                return "blocked"
-            self.granted = tid
-            self.running = tid
-            self.cv.notify_all()
-            t0 = time.time()
-            while self.running is not None:
-                self.cv.wait(0.2)
-                if time.time() - t0 > WAIT:
-                    raise Hang("thread %s did not return from its access" % tid)
+        if tid in self.done or tid not in self.parked:
+            return "fin"
+        can = self.parked[tid][0]
+        if can is not None and not can():
+            return "blocked"
+        del self.parked[tid]
+        self.go[tid].release()
+        self.wait_parked(tid)
         return "ok"
 
     def kill(self):
-        with self.cv:
-            self.abort = True
-            self.cv.notify_all()
+        self.abort = True
+        for sem in self.go.values():
+            sem.release()
 
 
 class SLock:
@@ -475,6 +456,7 @@ def run_case(progs, sched):
     out = {}
     try:
         for tid, prog in enumerate(progs):
+            s.go[tid] = threading.Semaphore(0)
             t = threading.Thread(target=w.body, args=(tid, prog, states[tid]), daemon=True)
             threads.append(t)
             t.start()
